@@ -15,7 +15,9 @@ import (
 	"encoding/json"
 	"fmt"
 	"math"
+	"math/big"
 	"sort"
+	"sync"
 	"testing"
 	"time"
 
@@ -50,6 +52,8 @@ type Case struct {
 	Target uint32      `json:"target"`
 	G      gen.G       `json:"g"`
 	Dense  *DenseLine  `json:"dense,omitempty"`  // kind "cover": a densified line instead of G (see micro_test.go)
+	Large  *Large      `json:"large,omitempty"`  // kind "large": one rung of a size ladder (see large_test.go)
+	Shared int         `json:"shared,omitempty"` // kind "cover": that many goroutines call Geometry on the SAME argument value (zooms Z, Z-1, ...)
 	Layout string      `json:"layout,omitempty"` // memory layout of the argument: shared | spare | plain (see layout_test.go)
 	Tiles  [][2]uint32 `json:"tiles,omitempty"`
 }
@@ -120,20 +124,25 @@ func segBox(a, b pt, lox, loy, hix, hiy float64) bool {
 	return t0 <= t1
 }
 
-func segTile(a, b pt, k tkey, grow float64) bool {
+func segTile(a, b pt, k tkey, grow float64) bool { return segTileXY(a, b, k, grow, grow) }
+
+// segTileXY: the tile grown by gx in x and gy in y (negative: shrunk).
+func segTileXY(a, b pt, k tkey, gx, gy float64) bool {
 	x, y := float64(k.x), float64(k.y)
-	return segBox(a, b, x-grow, y-grow, x+1+grow, y+1+grow)
+	return segBox(a, b, x-gx, y-gy, x+1+gx, y+1+gy)
 }
 
 // segTiles calls f for every tile whose square, grown by grow (negative:
 // shrunk), is met by the segment a-b. Cost is proportional to the number of
 // tiles the segment passes.
-func segTiles(a, b pt, grow float64, f func(k tkey)) {
-	g := math.Abs(grow)
+func segTiles(a, b pt, grow float64, f func(k tkey)) { segTilesXY(a, b, grow, grow, f) }
+
+func segTilesXY(a, b pt, gx, gy float64, f func(k tkey)) {
+	ax, ay := math.Abs(gx), math.Abs(gy)
 	minx, maxx := math.Min(a[0], b[0]), math.Max(a[0], b[0])
 	dx, dy := b[0]-a[0], b[1]-a[1]
-	for tx := int64(math.Floor(minx - g)); tx <= int64(math.Floor(maxx+g)); tx++ {
-		lo, hi := float64(tx)-grow, float64(tx)+1+grow
+	for tx := int64(math.Floor(minx - ax)); tx <= int64(math.Floor(maxx+ax)); tx++ {
+		lo, hi := float64(tx)-gx, float64(tx)+1+gx
 		t0, t1 := 0.0, 1.0
 		if dx == 0 {
 			if a[0] < lo || a[0] > hi {
@@ -153,9 +162,9 @@ func segTiles(a, b pt, grow float64, f func(k tkey)) {
 		if y0 > y1 {
 			y0, y1 = y1, y0
 		}
-		for ty := int64(math.Floor(y0-g)) - 1; ty <= int64(math.Floor(y1+g))+1; ty++ {
+		for ty := int64(math.Floor(y0-ay)) - 1; ty <= int64(math.Floor(y1+ay))+1; ty++ {
 			k := tkey{tx, ty}
-			if segTile(a, b, k, grow) {
+			if segTileXY(a, b, k, gx, gy) {
 				f(k)
 			}
 		}
@@ -172,7 +181,7 @@ type model struct {
 	inDom bool                // false once a member outside the quantifier was seen
 	why   string              // why not in the domain
 	polys []polyInfo          // per polygon info
-	verts []pt                // vertices of which the cover must hold a tile (within eps)
+	verts []vert              // vertices of which the cover must hold a tile (within eps; within 0 in x where x is exact)
 }
 
 type polyInfo struct {
@@ -187,6 +196,73 @@ func (m *model) outside(why string) {
 	if m.inDom {
 		m.inDom = false
 		m.why = why
+	}
+}
+
+// vert is a vertex with its tolerance in x: eps, or 0 where the longitude
+// projects without any rounding to a position strictly inside a column (L6).
+type vert struct {
+	p  pt
+	ex float64
+}
+
+func vertsOf(ps []pt) []vert {
+	out := make([]vert, len(ps))
+	for i, p := range ps {
+		out[i] = vert{p, eps}
+	}
+	return out
+}
+
+// exactX reports whether the tile-space x of a longitude is computed without
+// any rounding both in orb's order (lon/360 + 0.5) * n and in the harness's
+// ((lon + 180) / 360) * n - every intermediate is exactly representable - and
+// returns that x. Then the column of a vertex is not a matter of rounding, however
+// close to a column edge it is. (Latitudes never qualify: the mercator y goes
+// through sin/log.)
+func exactX(lon float64, z uint32) (float64, bool) {
+	bf := func(v float64) *big.Float { return new(big.Float).SetPrec(200).SetFloat64(v) }
+	mul360 := func(v float64) *big.Float { return new(big.Float).SetPrec(200).Mul(bf(v), bf(360)) }
+	q := lon / 360
+	if mul360(q).Cmp(bf(lon)) != 0 {
+		return 0, false
+	}
+	r := q + 0.5
+	if new(big.Float).SetPrec(200).Add(bf(q), bf(0.5)).Cmp(bf(r)) != 0 {
+		return 0, false
+	}
+	sum := lon + 180
+	if new(big.Float).SetPrec(200).Add(bf(lon), bf(180)).Cmp(bf(sum)) != 0 {
+		return 0, false
+	}
+	t := sum / 360
+	if mul360(t).Cmp(bf(sum)) != 0 {
+		return 0, false
+	}
+	n := worldN(z)
+	if r*n != t*n {
+		return 0, false
+	}
+	return r * n, true
+}
+
+// epsX is the tolerance in x for a vertex of longitude lon at projected x: 0 if
+// x is within eps of a column edge, not on it, and exact; eps otherwise (where
+// 0 and eps decide the same).
+func (m *model) epsX(lon, x float64) float64 {
+	if d := math.Abs(x - math.Round(x)); d == 0 || d >= eps {
+		return eps
+	}
+	if xe, ok := exactX(lon, m.z); ok && xe == x && xe != math.Round(xe) {
+		return 0
+	}
+	return eps
+}
+
+func pointAllowX(p pt, ex float64) func(k tkey) bool {
+	return func(k tkey) bool {
+		x, y := float64(k.x), float64(k.y)
+		return p[0] >= x-ex && p[0] <= x+1+ex && p[1] >= y-eps && p[1] <= y+1+eps
 	}
 }
 
@@ -234,10 +310,11 @@ func extent(ps []pt) float64 {
 func (m *model) addPoint(p orb.Point) {
 	m.checkDomainPts([]orb.Point{p})
 	q := project(p, m.z)
-	m.verts = append(m.verts, q)
-	m.allow = append(m.allow, pointAllow(q))
+	ex := m.epsX(p[0], q[0])
+	m.verts = append(m.verts, vert{q, ex})
+	m.allow = append(m.allow, pointAllowX(q, ex))
 	fx, fy := math.Floor(q[0]), math.Floor(q[1])
-	if q[0]-fx > eps && q[0]-fx < 1-eps && q[1]-fy > eps && q[1]-fy < 1-eps {
+	if (ex == 0 || (q[0]-fx > eps && q[0]-fx < 1-eps)) && q[1]-fy > eps && q[1]-fy < 1-eps {
 		m.req[tkey{int64(fx), int64(fy)}] = "tile of a point"
 	}
 }
@@ -271,13 +348,30 @@ func (m *model) addLine(ls orb.LineString) {
 	// the line has positive length whatever the rounding of the projection:
 	// every tile a segment passes through (shrunk by eps) is required, however
 	// short the segment, and every vertex has a tile
-	m.verts = append(m.verts, ps...)
+	// an exactly vertical segment (both ends the same longitude) whose x is exact
+	// and strictly inside a column lies in that column only, however close to
+	// the column's edge (L6); every other segment keeps eps in x
+	gx := make([]float64, len(ps))
+	vs := vertsOf(ps)
+	for i := 0; i+1 < len(ps); i++ {
+		gx[i] = eps
+		if ls[i][0] == ls[i+1][0] && ps[i][0] == ps[i+1][0] {
+			gx[i] = m.epsX(ls[i][0], ps[i][0])
+		}
+	}
+	for i := range vs {
+		// a vertex is exact in x when every segment it belongs to is
+		if (i == 0 || gx[i-1] == 0) && (i+1 >= len(ps) || gx[i] == 0) {
+			vs[i].ex = 0
+		}
+	}
+	m.verts = append(m.verts, vs...)
 	for i := 0; i+1 < len(ps); i++ {
 		a, b := ps[i], ps[i+1]
 		if a == b {
 			continue
 		}
-		segTiles(a, b, -eps, func(k tkey) {
+		segTilesXY(a, b, -gx[i], -eps, func(k tkey) {
 			if _, ok := m.req[k]; !ok {
 				m.req[k] = fmt.Sprintf("segment %d of a line passes through it", i)
 			}
@@ -287,14 +381,14 @@ func (m *model) addLine(ls orb.LineString) {
 		// many segments: tabulate the allowed tiles once
 		allowed := map[tkey]bool{}
 		for i := 0; i+1 < len(ps); i++ {
-			segTiles(ps[i], ps[i+1], eps, func(k tkey) { allowed[k] = true })
+			segTilesXY(ps[i], ps[i+1], gx[i], eps, func(k tkey) { allowed[k] = true })
 		}
 		m.allow = append(m.allow, func(k tkey) bool { return allowed[k] })
 		return
 	}
 	m.allow = append(m.allow, func(k tkey) bool {
 		for i := 0; i+1 < len(ps); i++ {
-			if segTile(ps[i], ps[i+1], k, eps) {
+			if segTileXY(ps[i], ps[i+1], k, gx[i], eps) {
 				return true
 			}
 		}
@@ -470,7 +564,7 @@ func (m *model) addPolygon(poly orb.Polygon) {
 		return
 	}
 	for _, r := range rings {
-		m.verts = append(m.verts, r...)
+		m.verts = append(m.verts, vertsOf(r)...)
 	}
 	bnd := map[tkey]bool{}
 	for ri, r := range rings {
@@ -503,18 +597,19 @@ func (m *model) addBound(b orb.Bound) {
 		m.outside("bound with Min > Max")
 	}
 	lo, hi := project(b.Min, m.z), project(b.Max, m.z)
+	ex0, ex1 := m.epsX(b.Min[0], lo[0]), m.epsX(b.Max[0], hi[0])
 	if validBound(b) {
-		m.verts = append(m.verts, lo, hi)
+		m.verts = append(m.verts, vert{lo, ex0}, vert{hi, ex1})
 	}
 	x0, x1 := lo[0], hi[0]
 	y0, y1 := hi[1], lo[1] // larger latitude = smaller tile y
 	m.allow = append(m.allow, func(k tkey) bool {
 		x, y := float64(k.x), float64(k.y)
-		return x+1+eps >= x0 && x-eps <= x1 && y+1+eps >= y0 && y-eps <= y1
+		return x+1+ex0 >= x0 && x-ex1 <= x1 && y+1+eps >= y0 && y-eps <= y1
 	})
 	for tx := int64(math.Floor(x0)) - 1; tx <= int64(math.Floor(x1))+1; tx++ {
 		x := float64(tx)
-		if !(x+1-eps >= x0 && x+eps <= x1) {
+		if !(x+1-ex0 >= x0 && x+ex1 <= x1) {
 			continue
 		}
 		for ty := int64(math.Floor(y0)) - 1; ty <= int64(math.Floor(y1))+1; ty++ {
@@ -646,17 +741,18 @@ func (m *model) verify(cover map[maptile.Tile]bool) error {
 	}
 	// every vertex has a tile: one whose square, grown by eps, holds the vertex
 	// (near an edge or corner any of the 2 or 4 tiles around it will do)
-	for i, v := range m.verts {
+	for i, vt := range m.verts {
+		v := vt.p
 		found := false
-		for _, tx := range []float64{math.Floor(v[0] - eps), math.Floor(v[0] + eps)} {
+		for _, tx := range []float64{math.Floor(v[0] - vt.ex), math.Floor(v[0] + vt.ex)} {
 			for _, ty := range []float64{math.Floor(v[1] - eps), math.Floor(v[1] + eps)} {
-				if tx >= 0 && ty >= 0 && tx < float64(n) && ty < float64(n) && cover[tileOf(uint32(tx), uint32(ty), maptile.Zoom(m.z))] {
+				if tx >= 0 && ty >= 0 && tx < float64(n) && ty < float64(n) && cover[tileOf(uint32(tx), uint32(ty), m.z)] {
 					found = true
 				}
 			}
 		}
 		if !found {
-			return fmt.Errorf("vertex %d of %d at tile position (%.17g, %.17g), zoom %d: none of the tiles within %g tile of it is in the cover (%d tiles)", i, len(m.verts), v[0], v[1], m.z, eps, len(cover))
+			return fmt.Errorf("vertex %d of %d at tile position (%.17g, %.17g), zoom %d: none of the tiles within %g tile (in x: %g) of it is in the cover (%d tiles)", i, len(m.verts), v[0], v[1], m.z, eps, vt.ex, len(cover))
 		}
 	}
 	return nil
@@ -739,6 +835,8 @@ func evaluate(c Case) (info, error) {
 		return evalCover(c)
 	case "merge":
 		return evalMerge(c)
+	case "large":
+		return evalLarge(c)
 	}
 	return info{}, fmt.Errorf("harness: unknown case kind %q", c.Kind)
 }
@@ -762,12 +860,17 @@ func evalCover(c Case) (info, error) {
 	src := c.geometry()
 	orig := gen.DeepCopy(src)
 	g, gd := layOut(src, c.Layout)
+	// a change of the VALUE the caller passed (any element within len of any part,
+	// incl. the next member in the shared / alias layouts) is a failure: tile covers
+	// are not documented to modify their input. A write that only reaches spare
+	// capacity beyond len (sentinel cells) changes no value the caller can see and
+	// is only counted (round L soundness rule).
 	readOnly := func(after string) error {
 		if same, what := gen.SameBits(g, orig); !same {
-			return fmt.Errorf("tile covers are read-only on their argument, but after %s it differs: %s", after, what)
+			return fmt.Errorf("tile covers do not modify their input, but after %s (layout %s) the geometry passed differs: %s", after, c.Layout, what)
 		}
-		if err := gd.check(); err != nil {
-			return fmt.Errorf("tile covers are read-only on their argument, but after %s (layout %s): %v", after, c.Layout, err)
+		if gd.check() != nil {
+			stats.Class("layout-note:write into spare capacity of the argument beyond len (counted, not a failure)")
 		}
 		return nil
 	}
@@ -881,6 +984,17 @@ func evalCover(c Case) (info, error) {
 		return inf, fmt.Errorf("after writing into the returned tile set, the same typed cover call gives a different cover (tile %v): results are not independent values", t)
 	}
 
+	// the same argument value used by several callers at once (L4): zooms Z,
+	// Z-1, ...; every result is judged by the model of its zoom
+	if c.Shared >= 2 {
+		if err := sharedArg(g, orig, c.Z, c.Shared); err != nil {
+			return inf, err
+		}
+		if rerr := readOnly("concurrent calls on the same argument"); rerr != nil {
+			return inf, rerr
+		}
+	}
+
 	// merging the cover upward
 	tiles := make([]maptile.Tile, 0, len(cover))
 	for t := range cover {
@@ -913,6 +1027,48 @@ func evalMerge(c Case) (info, error) {
 	merged, err := checkMerge(tiles, c.Z, c.Target)
 	inf.mergedQuad = merged
 	return inf, err
+}
+
+func sharedArg(g, orig orb.Geometry, Z uint32, n int) error {
+	var zs []uint32
+	for i := 0; i < n && uint32(i) <= Z; i++ {
+		zs = append(zs, Z-uint32(i))
+	}
+	models := make([]*model, len(zs))
+	for i, z := range zs {
+		models[i] = newModel(z)
+		models[i].addGeom(orig)
+	}
+	errs := make([]error, len(zs))
+	var wg sync.WaitGroup
+	for i := range zs {
+		wg.Add(1)
+		go func(i int) {
+			defer wg.Done()
+			errs[i] = stats.Guard(func() error {
+				for round := 0; round < 2; round++ {
+					set, err := tilecover.Geometry(g, maptile.Zoom(zs[i]))
+					if err != nil {
+						if models[i].inDom {
+							return fmt.Errorf("error %v", err)
+						}
+						return nil
+					}
+					if verr := models[i].verify(members(set)); verr != nil {
+						return verr
+					}
+				}
+				return nil
+			})
+		}(i)
+	}
+	wg.Wait()
+	for i, e := range errs {
+		if e != nil {
+			return fmt.Errorf("%d goroutines covering the same geometry value at zooms %v: zoom %d: %v", len(zs), zs, zs[i], e)
+		}
+	}
+	return nil
 }
 
 // scribble overwrites a returned tile set: every entry is switched off, some
